@@ -701,7 +701,7 @@ def check(ctx):
     corpus = load_corpus("C02")
     if ctx.replay:
         rp = json.load(open(ctx.replay))
-        cases = [rp["case"]] if "case" in rp else []
+        cases = ([rp["case"]] if "case" in rp else []) + [c for c in corpus if c.get("finding")]      # witnesses of the known findings are always replayed
     else:
         cases = corpus + generate(ctx)
     outs, badI, badS, gfalse, crashed, notes = run_cases(ctx, cases, "main")
